@@ -38,7 +38,7 @@ m = {
     "engines": ENGINES,
     "checks": checks,
     "not_applicable": na,
-    "notes": "All checks are property-based tests / fuzzers (rapid v1.3.0, go test -fuzz in thorough tiers) driven by ./check; see DESIGN.md. Known findings: known_findings.json.",
+    "notes": "All checks are property-based tests / fuzzers (rapid v1.3.0, sharded over processes) driven by ./check; see DESIGN.md. Known findings: known_findings.json.",
 }
 json.dump(m, open("/verif/MANIFEST.json", "w"), indent=1)
 print("wrote MANIFEST.json:", len(checks), "checks,", len(na), "not applicable")
